@@ -620,6 +620,6 @@ def rule_keyword_arguments(rep, idx, pm, tm) -> None:
 	used_in_template = any(x.name == 'label' for x in tm.asts['expression/argument'].find_all(n.Name))
 	fc = pm.handlers.get('on_func_call')
 	# a use of the labels counts only where the callee's parameters are consulted as well (str.format's named placeholders read labels for another purpose)
-	used_in_call = fc is not None and any(any(isinstance(x, ast.Attribute) and x.attr in ('label', 'labels') for x in ast.walk(g.node)) and any(isinstance(x, ast.Attribute) and x.attr in ('parameters', 'parameter_at') for x in ast.walk(g.node)) for g in helper_closure(fc, 2))
+	used_in_call = fc is not None and any(any(isinstance(x, ast.Attribute) and x.attr in ('label', 'labels') for x in ast.walk(g.node)) and (any(isinstance(x, ast.Attribute) and x.attr in ('parameters', 'parameter_at') for x in ast.walk(g.node)) or any(isinstance(x, ast.Raise) for x in ast.walk(g.node))) for g in helper_closure(fc, 2))
 	used_in_handler = any(isinstance(x, ast.Name) and x.id == 'label' and isinstance(x.ctx, ast.Load) for x in ast.walk(h.node) if not isinstance(x, ast.Dict)) and any(isinstance(x, (ast.If, ast.IfExp, ast.Raise)) for x in ast.walk(h.node))
 	r.check(used_in_template or used_in_call or used_in_handler, 'label-used', h.where, 'on_argument passes `label` to expression/argument.j2, which prints only `{{ value }}`, and on_func_call never looks at the labels: `sub(b=1, a=2)` is emitted as `sub(1, 2)` — the values reach the wrong parameters (Python 1, C++ -1)', 'sub(b=1, a=2)')
